@@ -543,7 +543,7 @@ class Exec(Interp):
             facts = tuple(f for f in d.facts if not any(bad(x) for x in f.t))
             if len(iv) == len(d.iv) and len(facts) == len(d.facts):
                 return d
-            return Delta(iv, facts, d.gen)
+            return Delta(iv, facts, d.gen, d.ef)
 
         def walk(v, depth=0):
             if isinstance(v, Enum):
@@ -708,31 +708,7 @@ class Exec(Interp):
         return out
 
     def _attach_efacts(self, U, ln, templates):
-        changed = [False]
-
-        def walk(v, depth=0):
-            if isinstance(v, Seq):
-                if v.len == ln:
-                    new = tuple(t for t in templates if t not in v.efacts)
-                    if new:
-                        changed[0] = True
-                        return Seq(v.kind, v.len, v.elem, v.efacts + new, v.data, v.prov)
-                return v
-            if depth > 5:
-                return v
-            if isinstance(v, Struct):
-                fs = [walk(f, depth + 1) for f in v.fields]
-                return v if all(a is b for a, b in zip(fs, v.fields)) else Struct(v.path, fs)
-            if isinstance(v, Enum):
-                nv = {k: tuple(walk(f, depth + 1) for f in fs) for k, fs in v.variants.items()}
-                return v if all(all(a is b for a, b in zip(nv[k], v.variants[k])) for k in nv) else Enum(v.path, nv, v.when)
-            return v
-
-        for c, v in list(U.cells.items()):
-            nv = walk(v)
-            if nv is not v:
-                U.cells[c] = nv
-        return changed[0]
+        return U.attach_efacts(ln, templates)
 
     def preds_of(self, inst):
         pm = inst.get("_preds")
@@ -853,7 +829,7 @@ class Exec(Interp):
             seen_t = set()
             for tgt, U in outs:
                 if tgt == "return":
-                    rets[bi] = U if bi not in rets or tgt in seen_t else join(rets[bi], U, (frame, "ret", bi))
+                    rets[bi] = join(rets[bi], U, (frame, "ret", bi)) if ("return" in seen_t and bi in rets) else U
                     seen_t.add(tgt)
                     continue
                 if tgt in seen_t:
@@ -917,7 +893,7 @@ class Exec(Interp):
             if set(a.when) != set(b.when):
                 return False
             for k in a.when:
-                if a.when[k].iv != b.when[k].iv or a.when[k].facts != b.when[k].facts:
+                if a.when[k].iv != b.when[k].iv or a.when[k].facts != b.when[k].facts or a.when[k].ef != b.when[k].ef:
                     return False
             return all(all(self.same_val(x, y) for x, y in zip(a.variants[k], b.variants[k])) for k in a.variants)
         if isinstance(a, Arr):
